@@ -157,14 +157,24 @@ Theorem C10_go_imports_used_refuted :
 Proof. vm_compute. split; reflexivity. Qed.
 Print Assumptions C10_go_imports_used_refuted.
 
-(* a message without fields: struct of size 0 in C, 1 in C++  [empty-struct];
-   option c.struct_packing_alignment = 3 passes the validator translated from options.py but is
-   not a power of two  [align-nonpow2] *)
+(* a message without fields: struct of size 0 in C, 1 in C++  [empty-struct] *)
 Theorem C10_toolchain_regions_refuted :
-  inside_pre w_empty_struct = true /\ structs_nonempty_b (render_items w_empty_struct 0 TgH []) = false /\
-  inside_pre w_align = true /\ align_valid (o_calign (f_opts (getf w_align 0))) = true /\ g_align w_align 0 = false.
+  inside_pre w_empty_struct = true /\ structs_nonempty_b (render_items w_empty_struct 0 TgH []) = false.
 Proof. vm_compute. repeat split; reflexivity. Qed.
 Print Assumptions C10_toolchain_regions_refuted.
+
+(* ---- the alignment written into `__attribute__((packed, aligned(n)))` is 0 (no attribute) or a
+   power of two, for EVERY accepted schema: the validator of c.struct_packing_alignment translated
+   from options.py implies it for every integer (unguarded since the fix of [align-nonpow2]); the
+   former witness (alignment 3) is no longer well-formed ---- *)
+Theorem C10_struct_alignment_pow2 :
+  (forall v : Z, align_valid v = true -> align_ok v = true) /\
+  (forall (s : schema) (i : nat), wf s = true -> i < length s -> g_align s i = true) /\
+  wf w_align = false.
+Proof.
+  split; [exact align_valid_pow2 | split; [exact align_of_wf|]]. vm_compute. reflexivity.
+Qed.
+Print Assumptions C10_struct_alignment_pow2.
 
 (* ---- non-vacuity: a schema with imports (with and without as-name), nesting, aliases, arrays,
    a name prefix and an alignment option satisfies [wf], [pre] and every guard, and every check
